@@ -280,9 +280,9 @@ func (f *file) Close() error {
 		return io.EOF
 	}
 
-	if err := f.ioc.UnsetReadWrite(&f.slot); err != nil {
-		return err
-	}
+	// The descriptor is closed even if the interest cannot be removed (for example because the IO context was closed
+	// first): returning early would leak it for good, since every later Close reports that the file is already closed.
+	_ = f.ioc.UnsetReadWrite(&f.slot)
 	f.ioc.Deregister(&f.slot)
 
 	return syscall.Close(f.slot.Fd)
